@@ -151,3 +151,45 @@ for d in sorted(os.listdir(root)):
     }
     json.dump(meta, open(os.path.join(p, 'meta.json'), 'w'), indent=1)
     print(d, [ (c['check'], c['exit']) for c in meta['checks_run']])
+
+# round 4: failure handling / environment (agent N confined to a few source files, given C13 C12 C02 C18 (C16 C17) only)
+NEEDS4 = {
+ "F1-a": ("C13", "src/internal/alloc.rs", "Allocator::flush skips the underlying flush when an `unflushed` flag is clear, and clears the flag BEFORE the underlying flush succeeded", "the underlying flush() fails once, the flush is retried, and the backend makes bytes durable only on flush() (write-back cache)"),
+ "F1-b": ("C13 (author's reading)", "src/internal/alloc.rs", "free_chain_after frees the tail before cutting the chain", "a write failure at the 2nd+ FAT update inside a shrinking set_len (regular stream): the immediate retry fails for good ('next_id invalid'); only a LATER retry through a new handle, after other streams took over the freed sectors, frees those streams' sectors"),
+ "F2-a": ("C02 (author's reading)", "src/internal/directory.rs", "allocate_dir_entry pushes the new slot in memory before the directory chain is grown", "V4, the create that starts a new directory sector, one failed write during the growth, successful retry: header num_dir_sectors one too small, STRICT reopen rejects (permissive and live object fine)"),
+ "F2-b": ("C13/C17", "src/internal/directory.rs", "Directory::flush skips the flush when a needs_flush flag is clear; flag cleared before the allocator flush succeeded", "one failing underlying flush(), retry without a write in between, write-back-cache backend"),
+ "F3-a": ("C18/C12", "src/internal/chain.rs", "Chain::read loops over sectors inside one call and has advanced its offset when a later sector's read fails", "Interrupted on the read of a 2nd or later sector of one multi-sector read (read_exact retries with the same buffer from the advanced offset)"),
+ "F3-b": ("C13", "src/internal/sector.rs", "Sectors::flush skips the underlying flush unless a dirty flag is set; flag taken before the flush succeeds", "failed underlying flush() then retry, write-back-cache backend"),
+ "F4-a": ("C12", "src/internal/stream.rs", "a failed refill steps back instead of clearing the (already partly overwritten) buffer", "stream longer than the buffer, read error on the 2nd+ underlying read of a refill, then a backward seek into the old window and a read"),
+ "F4-b": ("C13", "src/internal/stream.rs", "total_len resynced from the directory entry also when the write-back failed", "failed write-back of appended bytes, then a length-dependent call (len, seek End) on the same handle before the retry"),
+ "F5-a": ("C18 (author: C13)", "src/internal/minichain.rs", "MiniChain::write loops over mini sectors in one call and reports Err after earlier pieces were written", "Interrupted on a non-first 64-byte piece of a mini-stream write-back: write_all retries the whole buffer at the advanced offset"),
+ "F5-b": ("C18/C12", "src/internal/minichain.rs", "MiniChain::read ignores the count returned by the underlying read", "a short read while reading mini-stream data"),
+ "F6-a": ("C13/C02", "src/lib.rs", "create_with_version_and_options writes header/FAT/directory through a BufWriter that is flushed by Drop (errors discarded)", "a write error on the underlying file during create: Ok is returned, nothing (or a prefix) is in the file"),
+ "F6-b": ("C18", "src/lib.rs", "OpenOptions::create(path) lost .truncate(true)", "create by PATH over an existing longer file: stale tail stays, bytes differ from the in-memory run"),
+}
+for d in sorted(os.listdir(root)):
+    p = os.path.join(root, d)
+    if not os.path.isdir(p) or d not in NEEDS4: continue
+    n = d[1:].split('-')[0]
+    notes = f'/tmp/ww_{n}/out/notes.md'
+    if os.path.exists(notes): shutil.copy(notes, os.path.join(p, 'notes.md'))
+    run = {}
+    if os.path.exists(os.path.join(p, 'run.json')):
+        try: run = json.load(open(os.path.join(p, 'run.json')))
+        except Exception as e: run = {"error": str(e)}
+    old = {}
+    if os.path.exists(os.path.join(p, 'meta.json')):
+        try: old = {c['check']: c for c in json.load(open(os.path.join(p, 'meta.json'))).get('checks_run', [])}
+        except Exception: old = {}
+    for c in run.get("checks", []): old[c['check']] = c
+    props, module, change, needs = NEEDS4[d]
+    meta = {
+      "property": props, "mutant": d, "origin": "independent sub-agent (round 4: failure handling and environment) confined to the named source file(s), given the texts of C13, C12, C02, C18 (and C16/C17 where relevant) and a scratch worktree of /repo",
+      "module": module, "change": change, "needs_to_manifest": needs,
+      "files": {"patch": "patch.diff (git apply in /repo)", "demonstration": "demo.rs (integration test: fails with the patch, passes without)", "notes": "notes.md (the sub-agent's own notes, both mutants of that agent)"},
+      "confirmed": {"how": "SEEDED_ROUND4=1 tools/seeded_eval.sh: in the scratch worktree the demo was run without and with the patch and the full suite with the patch; then the patch was applied to /repo's working tree, the named quick checks were run, and the tree was restored",
+                    "suite_with_patch": run.get("suite_with_mutant"), "demo_without_patch": run.get("demo_without_mutant"), "demo_with_patch": run.get("demo_with_mutant")},
+      "checks_run": [old[k] for k in sorted(old)],
+    }
+    json.dump(meta, open(os.path.join(p, 'meta.json'), 'w'), indent=1)
+    print(d, [ (c['check'], c['exit']) for c in meta['checks_run']])
